@@ -430,8 +430,8 @@ func applyHSEdit(typ byte, body []byte, e hsEdit) (out []byte, ok bool) {
 	case "set":
 		var cand []enumField
 		for _, f := range inf.Enums {
-			if e.Ext >= 0 && f.Ext != e.Ext {
-				continue
+			if e.Ext >= 0 && f.Ext != e.Ext || e.Ext == -2 && f.Ext >= 0 {
+				continue // (Ext -2: the message's own fields only, none inside an extension)
 			}
 			cand = append(cand, f)
 		}
